@@ -72,6 +72,19 @@ FAMILIES["susp"] = {
                     "confirmation instants never coincide with a deadline (odd nanosecond offsets): equal-instant ordering is scheduler dependent"],
 }
 
+FAMILIES["keyring"] = {
+    "name": "keyring", "props": ["C17"], "models": "Keyring.v",
+    "harness": COMMON + ["zz_vf_keyring_test.go"], "test": "TestVfKeyring",
+    "n": {"quick": 1500, "thorough": 30000},
+    "codes": [(180, 189, ["C17"])],
+    "code_names": {1: "undecodable case", 50: "call result (ok/error/panic) differs", 51: "returned key list / primary differs",
+                   52: "content of a previously returned key list differs", 53: "NewKeyring outcome differs",
+                   180: "C17: keyring call panicked", 181: "C17: a key list previously returned by GetKeys was altered by a later call",
+                   182: "C17: duplicate key installed", 183: "C17: invalid-length key installed or accepted"},
+    "assumptions": ["AES-GCM (crypto/cipher) is Go's; the rotation scenario uses the real encryptPayload/decryptPayload",
+                    "the data race between GetKeys users and RemoveKey is a runtime notion; its logical effect (aliasing) is what is modelled"],
+}
+
 # a property may be served by several families (run in order); the first is its primary one
 PROPS = {}
 for f, d in sorted(FAMILIES.items(), key=lambda kv: 0 if kv[0] in ("susp", "queue") else 1):
